@@ -59,7 +59,7 @@ def _innermost_propka_frame(tb):
 
 
 def run(text, optargs=(), name="case", write_pka=True, capture=False, stream=True, want_atoms=False,
-        want_profiles=False, keep_mol=False, path=None):
+        want_profiles=False, keep_mol=False, path=None, stream_obj=None):
     """Run propka.run.single and return the observation record.
 
     The .pka file is written into the current directory (the worker's scratch directory) and removed again."""
@@ -78,7 +78,8 @@ def run(text, optargs=(), name="case", write_pka=True, capture=False, stream=Tru
         if path is not None:
             mol = propka.run.single(path, list(optargs), write_pka=write_pka)
         else:
-            mol = propka.run.single(fname, list(optargs), stream=io.StringIO(text), write_pka=write_pka)
+            mol = propka.run.single(fname, list(optargs), stream=stream_obj if stream_obj is not None
+                                    else io.StringIO(text), write_pka=write_pka)
     except BaseException as e:      # SystemExit from argparse included
         if isinstance(e, KeyboardInterrupt):
             raise
